@@ -267,9 +267,11 @@ class QuickSampler:
         post_select_rules = [
             rule.as_tuple() for rule in getattr(self.post_select, "rules", [])
         ]
-        # Store circuit unitary and input state
+        # Store circuit unitary and input state, the number of modes is also
+        # included as loss modes mean this cannot be found from the unitary
         return [
             self.__circuit.U_full,
+            self.__circuit.n_modes,
             self.__circuit.heralds,
             self.input_state,
             self.post_select,
